@@ -481,6 +481,9 @@ class CasXmiDeserializer:
             return int(value)
         elif type_name == TYPE_NAME_BOOLEAN:
             return self._parse_bool(value)
+        elif type_.supertype is not None:
+            # User-defined subtypes of primitive types (e.g. of uima.cas.String) are parsed like their ancestor
+            return self._parse_primitive_value(type_.supertype, value)
         else:
             raise ValueError(f"Not a primitive type: {type_name}")
 
